@@ -1,4 +1,4 @@
-(* Proofs/BundleRows.v - the index rows of a bundle, generically in the kind of
+(* Proofs/BundleRoundtripRows.v - the index rows of a bundle, generically in the kind of
    thing that is being indexed (index entries for the writer, exchanges for the
    reader's view, pairs of both for the proof that the two agree):
    distinct URLs in order of first appearance, the things carrying each URL,
@@ -311,4 +311,61 @@ Lemma Forall2_flat_map {A B C} (P : B -> C -> Prop) (f : A -> list B) (g : A -> 
   Forall (fun a => Forall2 P (f a) (g a)) l -> Forall2 P (flat_map f l) (flat_map g l).
 Proof.
   induction 1 as [|a t Ha _ IH]; cbn [flat_map]; [constructor|]. apply Forall2_app; assumption.
+Qed.
+
+(* ---- the groups partition the list -------------------------------------------------------------- *)
+Lemma flat_map_ext_in' {A B} (f g : A -> list B) (l : list A) :
+  (forall a, In a l -> f a = g a) -> flat_map f l = flat_map g l.
+Proof.
+  induction l as [|x t IH]; intros H; [reflexivity|]. cbn [flat_map].
+  rewrite (H x (or_introl eq_refl)), IH; [reflexivity|]. intros a Ha. apply H. right. exact Ha.
+Qed.
+
+Lemma groups_partition {A} (url : A -> bytes) (us : list bytes) : NoDup us -> forall l : list A,
+  (forall a, In a l -> In (url a) us) ->
+  Permutation (flat_map (fun u => filter (fun a => bytes_eqb u (url a)) l) us) l.
+Proof.
+  intros ND l. induction l as [|a t IH]; intros Hin.
+  - induction us as [|u r IHu]; [constructor|]. cbn [flat_map filter app]. apply IHu.
+    + apply NoDup_cons_iff in ND. apply ND.
+    + intros a [].
+  - assert (Hu : In (url a) us) by (apply Hin; left; reflexivity).
+    apply in_split in Hu. destruct Hu as [us1 [us2 E]]. subst us.
+    assert (Hn1 : ~ In (url a) us1 /\ ~ In (url a) us2).
+    { apply NoDup_remove_2 in ND. split; intros H; apply ND; apply in_or_app; [left|right]; exact H. }
+    destruct Hn1 as [N1 N2].
+    assert (F : forall r, ~ In (url a) r ->
+                flat_map (fun u => filter (fun a0 => bytes_eqb u (url a0)) (a :: t)) r
+                = flat_map (fun u => filter (fun a0 => bytes_eqb u (url a0)) t) r).
+    { intros r Hr. apply flat_map_ext_in'. intros u Hu. cbn [filter].
+      destruct (bytes_eqb u (url a)) eqn:Eq; [|reflexivity]. apply bytes_eqb_eq in Eq. subst u. contradiction. }
+    rewrite flat_map_app. cbn [flat_map]. rewrite (F us1 N1), (F us2 N2).
+    cbn [filter]. rewrite bytes_eqb_refl. cbn [app].
+    eapply perm_trans; [apply Permutation_sym, Permutation_middle|]. apply perm_skip.
+    specialize (IH (fun a' Ha' => Hin a' (or_intror Ha'))).
+    rewrite flat_map_app in IH. cbn [flat_map] in IH. exact IH.
+Qed.
+
+Lemma g_groups_partition {A} (url : A -> bytes) (l : list A) :
+  Permutation (flat_map snd (g_groups url l)) l.
+Proof.
+  unfold g_groups. rewrite flat_map_map. cbn [snd].
+  apply groups_partition; [apply dedup_spec|]. intros a Ha. apply dedup_spec. apply in_map. exact Ha.
+Qed.
+
+(* a row is a rearrangement of its group when every member of a multi-member b1
+   group carries exactly one Variant-Key *)
+Lemma g_row_perm {A} (vvf vkf : A -> bytes) (v : bversion) (u : bytes) (es : list A) t :
+  g_row vvf vkf v (u, es) = Ok t ->
+  Forall (fun e => exists k, parse_list_of_string_lists (vkf e) = Ok [k]) es ->
+  Permutation (snd t) es.
+Proof.
+  intros H S. apply g_row_ok in H. destruct H as [_ [_ H]]. destruct v.
+  - destruct es as [|e0 [|e1 r]].
+    + destruct H as [_ H]. rewrite H. apply Permutation_refl.
+    + destruct H as [_ H]. rewrite H. apply Permutation_refl.
+    + destruct H as [_ H]. apply entries_order_perm in H.
+      * rewrite map_map in H. cbn [snd] in H. rewrite map_id in H. exact H.
+      * unfold single_keyed. apply Forall_map. eapply Forall_impl; [|exact S]. intros e He. exact He.
+  - destruct H as [e [E [_ H]]]. rewrite H, E. apply Permutation_refl.
 Qed.
